@@ -129,7 +129,10 @@ pub mod fallback {
     // Returns the least non-negative remainder of `x` (mod `m`).
     #[inline]
     pub fn rem_euclid(x: f32, m: f32) -> f32 {
-        x % m + (x.is_sign_negative() as u32 as f32) * m
+        // As in std. A negative multiple of `m` has the remainder -0.0,
+        // which must not be shifted up to `m`
+        let r = x % m;
+        if r < 0.0 { r + abs(m) } else { r }
     }
     /// Returns the approximate reciprocal of the square root of `x`.
     #[inline]
